@@ -8,6 +8,7 @@ class Facts:
         with open(path) as fh:
             d = json.load(fh)
         self.path = path
+        _install_type_aliases(d)
         self.crate = d["crate"]
         self.cfg = d["cfg"]
         self.features = sorted(c.split("=", 1)[1].strip('"') for c in d["cfg"] if c.startswith("feature="))
@@ -55,9 +56,40 @@ class Facts:
 _CRATE_RE = re.compile(r"(?<![\w:])(core|alloc)::")
 
 
+# Types the rule layer names, by the module path they have in the pinned tree. If one of them is found under another module path
+# (moved into a private submodule, say) while its name is still unique in the crate, every path mentioning it is rewritten to the
+# known one, so that the move alone changes nothing for the rules.
+KNOWN_TYPES = [
+    "cc::Cc", "cc::CcBox", "cc::BoxedMetadata", "cc::Metadata", "cc::VTable", "weak::Weak", "weak::NewCyclicWrapper",
+    "weak::weak_counter_marker::WeakCounterMarker", "counter_marker::CounterMarker", "counter_marker::Mark", "counter_marker::OverflowError",
+    "lists::LinkedList", "lists::PossibleCycles", "lists::LinkedQueue", "lists::Iter", "state::State", "config::Config",
+    "trace::Context", "trace::ContextInner", "cleaners::Cleaner", "cleaners::Cleanable", "cleaners::CleaningAction", "cleaners::CleanerMap",
+    "utils::ResetMarkDropGuard",
+]
+PATH_ALIASES = {}
+
+
+def _install_type_aliases(d):
+    PATH_ALIASES.clear()
+    paths = [_CRATE_RE.sub("std::", a["path"]) for a in d["adts"]]
+    have = set(paths)
+    for known in KNOWN_TYPES:
+        if known in have:
+            continue
+        last = known.rsplit("::", 1)[-1]
+        cands = [p for p in paths if p.rsplit("::", 1)[-1] == last and "{" not in p and not p.startswith(("<", "std::"))]
+        if len(cands) == 1:
+            PATH_ALIASES[cands[0]] = known
+
+
 def norm_path(p):
-    """Normalise def_path_str output: std::/core::/alloc:: prefixes unified, no crate prefix."""
-    return _CRATE_RE.sub("std::", p)
+    """Normalise def_path_str output: std::/core::/alloc:: prefixes unified, no crate prefix; moved known types (see KNOWN_TYPES)."""
+    p = _CRATE_RE.sub("std::", p)
+    if PATH_ALIASES:
+        for a, k in PATH_ALIASES.items():
+            if a in p:
+                p = re.sub(r"(?<![\w:])" + re.escape(a) + r"(?![\w])", k, p)
+    return p
 
 
 class Fn:
